@@ -2005,7 +2005,7 @@ def finish(report, decides, does_not_decide):
               'before the rules ran every module was brought to the analysis '
               'normal form: private helpers that are not rule anchors inlined '
               'into their callers (list below), canonical statement shapes '
-              'C1-C10 (core.canonicalise)'),
+              'C1-C22 (core.canonicalise)'),
           'private_renames_undone': list(getattr(report.repo, 'rename_log',
                                                  [])),
           'helpers_inlined': sorted(set(
